@@ -74,7 +74,7 @@ def handle : Handler := fun op inp impl => do
                tags := [s!"call:{call}", if o.done then "res:true" else "res:false", if o.err then "err" else "noerr",
                         if o.net != n then "netwrite" else "nonetwrite", s!"grace:{c.grace}"] ++
                         (if c.hasRevKey then [] else ["guard:noRevKey"]) }
-  | "fault" => RV.Drv.Fault.handleFault ["C03", "C04", "C05", "C06", "C07", "C09", "C10"] impl
+  | "fault" => RV.Drv.Fault.handleFault ["C03", "C04", "C05", "C06", "C07", "C09", "C10", "C14"] impl
   | _ => .error s!"traffic: unknown op {op}"
 
 end RV.Drv.Traffic
